@@ -353,8 +353,10 @@ def run(res):
               "from literals, displays, tuple()/frozenset() calls, instances, class objects, lambdas; 45% of the "
               "values are built to inhabit T.  Each pair is checked at three sites (argument, return, annotated "
               "assignment), 50 pairs per analysed module.  A case is non-trivial if T is not Any/object; distinct "
-              "by (rendered T, rendered V, hierarchy).  thorough adds every depth<=1 annotation x depth<=1 value "
-              "over a reduced atom set.")
+              "by (rendered T, rendered V, hierarchy).  quick: 1000 sampled pairs (1/3 of depth<=1, 2/3 of depth 2) + "
+              "corpus; thorough: 3500 sampled pairs + a uniform sample (default 8000, VERIF_C02_EXHAUSTIVE_CAP) "
+              "of the full product of every depth<=1 annotation x every depth<=1 value over a reduced atom set "
+              "(319 x 209 pairs).")
   res.assumptions = [
       "CPython compiles the generated one-line statements as written (C16's subject)",
       "abs (the abstract value built for a literal expression) is modelled after convert.py/vm.py and checked "
@@ -366,6 +368,7 @@ def run(res):
       "generator, differ and the run-time oracle in harness/props/c02*.py",
   ]
   # --- regenerate the builtin class table from pytype's loaded stubs (fail closed)
+  t_start = time.time()
   common.bootstrap_pytype()
   try:
     tbl = c02_table.build()
@@ -375,7 +378,9 @@ def run(res):
     res.obligation("translate:builtins.pytd/typing.pytd->Generated/C02_Builtins.v", False, str(e))
     if not os.path.exists(GEN_V):
       return "proof"
+  t_translate = time.time() - t_start
   common.coq_obligations(res, "C02")
+  t_coq_build = time.time() - t_start - t_translate
   res.trusted_base += ["out-of-tree g++ build of /repo/pytype/typegraph/*.cc (harness/common.py build_cfg)",
                        "harness/props/c02_table.py (stub -> Coq table translator; reads pytype's loaded classes)",
                        "CPython 3.12 eval() of the value expressions + collections.abc for the oracle"]
@@ -384,7 +389,7 @@ def run(res):
   batches = []          # (name, hier, pairs)
   for name, hier, pairs in load_corpus():
     batches.append(("corpus:" + name, hier, pairs))
-  n_rand = 5000 if thorough else 1400
+  n_rand = 3500 if thorough else 1000
   for b in range(n_rand // BATCH):
     hier = G.Hier.random(r)
     if b % 3 == 0:
@@ -397,7 +402,7 @@ def run(res):
     ts, vs = small_types(hier), small_values(hier)
     allp = [(t, v) for t in ts for v in vs]
     r.shuffle(allp)
-    cap = int(os.environ.get("VERIF_C02_EXHAUSTIVE_CAP", "14000"))
+    cap = int(os.environ.get("VERIF_C02_EXHAUSTIVE_CAP", "8000"))
     res.extra["exhaustive"] = ("%d depth<=1 annotations x %d depth<=1 values = %d pairs%s" % (
         len(ts), len(vs), len(allp), "" if len(allp) <= cap else " (uniform sample of %d)" % cap))
     allp = allp[:cap]
@@ -453,6 +458,7 @@ def run(res):
   # --- compare
   n_corr = n_corr_bad = n_orc_bad = n_unexp = n_outside = 0
   n_oracle_self = 0
+  n_wf_bad = 0
   hist_site_err = {s: 0 for s in G.SITES}
   hist_head = {}
   explained = {}
@@ -490,8 +496,10 @@ def run(res):
       code = cs[i] if cs and i < len(cs) else None
       if frag and code is not None:
         if not code & 1 or not code & 32:
-          res.obligation("fragment-wf", False, "wf/table_ok false in Coq (code %d) for (%s, %s)" % (
-              code, G.render_ty(t), G.render_val(v)))
+          n_wf_bad += 1
+          if n_wf_bad <= 2:
+            res.obligation("fragment-wf", False, "wf_ty/wf_val (bit 1) or table_ok (bit 32) false in Coq: code %d "
+                           "for (%s, %s)" % (code, G.render_ty(t), G.render_val(v)))
         if bool(code & 16) != orc:
           n_corr_bad += 1
           if n_corr_bad <= 3:
@@ -561,6 +569,8 @@ def run(res):
   res.obligation("oracle:unexplained-disagreements", n_orc_bad == 0,
                  "%d site verdicts differ from run-time membership and no named deviation explains them" % n_orc_bad)
   res.obligation("generated-programs-clean", n_unexp == 0, "%d unexpected errors" % n_unexp)
+  res.obligation("fragment-wf(all pairs inside the fragment are wf, table_ok holds)", n_wf_bad == 0,
+                 "%d pairs" % n_wf_bad)
   # --- abs vs reveal_type
   n_rv = n_rv_bad = 0
   k = 0
@@ -588,12 +598,19 @@ def run(res):
       "pairs_outside_fragment(oracle only)": n_outside, "errors_by_site": hist_site_err,
       "annotation_head_histogram": dict(sorted(hist_head.items(), key=lambda kv: -kv[1])),
       "explained_deviation_hits": explained, "reveal_type_sample": n_rv,
-      "wall_pytype_s": round(t_impl, 1), "wall_coq_cases_s": round(t_coq, 1)})
+      "wall_translate_s": round(t_translate, 1), "wall_coq_build_and_props_s(incl. waiting for the shared lock)":
+      round(t_coq_build, 1), "wall_pytype_s": round(t_impl, 1), "wall_coq_cases_s": round(t_coq, 1)})
   if thorough:
-    import c09   # pylint: disable=import-outside-toplevel
-    ok, out = c09.common_coqchk("C02")
+    ok, out = common_coqchk("C02")
     res.obligation("coqchk", ok, out[-1500:])
   return "proof"
+
+
+def common_coqchk(pid):
+  import subprocess   # pylint: disable=import-outside-toplevel
+  r = subprocess.run(["timeout", "1500", "coqchk", "-silent", "-o", "-Q", common.COQ, "PV", f"PV.Props.{pid}"],
+                     capture_output=True, text=True, cwd=common.COQ)
+  return r.returncode == 0, r.stdout + r.stderr
 
 
 def replay(res, path):
@@ -617,3 +634,9 @@ def replay(res, path):
   fps = fingerprints(t, v, s, e, hier) if e != (not orc) else []
   print("explained by:", fps)
   return 1 if e != (not orc) else 0
+
+
+def generate():
+  """Called by harness/setup.py before the Coq build (coq/Generated is not committed)."""
+  common.bootstrap_pytype()
+  common.write_if_changed(GEN_V, c02_table.render_coq(c02_table.build()))
